@@ -71,6 +71,40 @@ pub fn liveness_mode(prog: &Program) -> Live {
         return Live::Full;
     }
     let single = prog.phases.iter().all(|p| p.threads.len() <= 1 && p.env_streams.is_empty());
+    // with no pool thread a suspended queue is only ever run again by whoever resumes it and then
+    // polls or syncs: a context that awaits something else while it holds the resumer waits for ever
+    let mut suspend_shape_ok = true;
+    for ph in &prog.phases {
+        for t in &ph.threads {
+            let mut suspends: Vec<usize> = vec![];
+            for (i, op) in t.iter().enumerate() {
+                if let OpKind::Suspend { h, .. } = &op.k {
+                    suspends.push(*h);
+                    let _ = i;
+                }
+            }
+            for h in suspends {
+                let await_pos = t.iter().position(|op| matches!(&op.k, OpKind::Await { h: hh } if *hh == h));
+                match await_pos {
+                    Some(p) => {
+                        let next_ok = t.get(p + 1).map_or(false, |op| matches!(&op.k, OpKind::Resume { h: hh } | OpKind::DropResumer { h: hh } if *hh == h));
+                        if !next_ok {
+                            suspend_shape_ok = false;
+                        }
+                    }
+                    None => {
+                        // never awaited: only fine if it is dropped unpolled
+                        if t.iter().any(|op| matches!(&op.k, OpKind::PollOnce { h: hh } if *hh == h)) {
+                            suspend_shape_ok = false;
+                        }
+                    }
+                }
+            }
+        }
+    }
+    if !suspend_shape_ok {
+        return Live::None;
+    }
     if !has_polling_ops(prog) {
         Live::SyncOnly
     } else if single {
@@ -218,8 +252,8 @@ pub fn analyse(rep: &RunReport) -> Verdict {
                     } else if matches!(r.outcome, CallOutcome::Returned(_) | CallOutcome::Busy) {
                         v(&mut out, "C14", "closure_outlived_call", &[r.id], ret, format!("closure of {} {} was still alive when the call returned", r.tag, r.id));
                     }
-                    if r.kind == Kind::TrySync && r.blocks_in_call > 0 {
-                        v(&mut out, "C09", "blocked", &[r.id], ret, format!("try_sync {} waited {} times (condvar wait / park) inside the call", r.id, r.blocks_in_call));
+                    if r.kind == Kind::TrySync && r.blocks_in_call > r.blocks_inside {
+                        v(&mut out, "C09", "blocked", &[r.id], ret, format!("try_sync {} waited {} times (condvar wait / park) inside the call, outside its closure", r.id, r.blocks_in_call - r.blocks_inside));
                     }
                 }
             }
@@ -574,8 +608,15 @@ fn blame_hang(rep: &RunReport, live: Live, out: &mut Vec<Violation>, verdict: &m
         _ => {}
     }
 
+    // is there a pool thread that could have run a stranded queue?
+    let idle_pool = tasks.iter().filter(|t| t.name == "desync jobs thread" && matches!(t.state, TState::Blocked(Wait::Recv(_)))).count();
+    let live_pool = tasks.iter().filter(|t| t.name == "desync jobs thread" && t.state != TState::Finished).count();
+    let pool_available = idle_pool > 0 || live_pool < world.cur_max;
     let mut props_found = 0;
+    let task_state = |t: Option<usize>| t.and_then(|t| tasks.get(t)).map(|t| t.state);
     for (o, slot) in world.objs.iter().enumerate() {
+        let peek = facts.queue_peeks.iter().find(|p| p.0 == o).and_then(|p| p.1);
+        let qstate = peek.map(|p| p.0);
         if slot.panic_injected {
             // anything waiting on a panicked object: C15 (callers must be refused, not left hanging)
             for r in ops.iter().filter(|r| r.obj == Some(o) && r.outcome == CallOutcome::InCall) {
@@ -587,103 +628,118 @@ fn blame_hang(rep: &RunReport, live: Live, out: &mut Vec<Violation>, verdict: &m
             }
             continue;
         }
-        // outstanding work on this object
-        let outstanding: Vec<&OpRec> = ops
-            .iter()
-            .filter(|r| r.obj == Some(o) && r.kind.has_body() && r.fin.is_none())
-            .filter(|r| matches!(r.outcome, CallOutcome::Returned(_)) || (r.outcome == CallOutcome::InCall && r.kind == Kind::Sync))
-            .filter(|r| !(r.kind == Kind::TrySync))
-            .filter(|r| {
-                // a future_sync whose future is gone imposes nothing any more
-                if r.kind == Kind::FutureSync {
-                    let h = r.handle.map(|h| &world.hrec[h]);
-                    let nested = r.nested_in.is_some();
-                    !(h.map_or(!nested, |h| h.dropped_at.is_some()))
-                } else {
-                    true
-                }
-            })
-            .collect();
-        let dropper_stuck = slot.drop_inv.is_some() && slot.drop_ret.is_none();
-        if outstanding.is_empty() {
-            if dropper_stuck {
-                v(out, "C05", "drop_never_returned", &[], slot.drop_inv.unwrap_or(0), format!("dropping object {} never returned although all its operations had finished: {}", o, where_));
+        let describe = |r: &OpRec| format!("{} {} on object {} (queue state/len/waiters {:?}, pool threads/busy/scheduled/max {:?}): {}", r.tag, r.id, o, peek, facts.sched_peek, where_);
+
+        // 1. a caller asleep in sync although it could run the queue itself
+        for r in ops.iter().filter(|r| r.obj == Some(o) && r.kind == Kind::Sync && r.outcome == CallOutcome::InCall && r.start.is_none()) {
+            if matches!(task_state(r.thread), Some(TState::Blocked(Wait::Condvar(_)))) && matches!(qstate, Some(0) | Some(1)) {
+                v(out, "C04", "sync_asleep_on_claimable_queue", &[r.id], r.inv.unwrap_or(0), describe(r));
                 props_found += 1;
             }
-            continue;
         }
-        let started: Vec<&&OpRec> = outstanding.iter().filter(|r| r.start.is_some()).collect();
-        let heads: Vec<&OpRec> = if !started.is_empty() {
-            started.into_iter().map(|r| *r).collect()
-        } else {
-            outstanding
-                .iter()
-                .filter(|a| !outstanding.iter().any(|b| b.id != a.id && b.ret.is_some() && a.inv.is_some() && b.ret.unwrap() < a.inv.unwrap()))
-                .map(|r| *r)
-                .collect()
-        };
-        let mut head_props: Vec<(&'static str, &'static str, u32)> = vec![];
-        for hd in &heads {
-            if hd.start.is_some() {
-                // inside the object and not finishing
-                if let Some(g) = hd.waiting_gate {
-                    if world.gates[g].open {
-                        head_props.push(("C06", "wake_lost", hd.id));
-                        continue;
+        if slot.drop_inv.is_some() && slot.drop_ret.is_none() {
+            if matches!(task_state(slot.dropper), Some(TState::Blocked(Wait::Condvar(_)))) && matches!(qstate, Some(0) | Some(1)) {
+                v(out, "C05", "drop_asleep_on_claimable_queue", &[], slot.drop_inv.unwrap_or(0), format!("dropping object {} sleeps although its queue (state/len/waiters {:?}) can be claimed: {}", o, peek, where_));
+                props_found += 1;
+            }
+        }
+
+        // 2. an operation inside the object that does not finish
+        let inside: Vec<&OpRec> = ops.iter().filter(|r| r.obj == Some(o) && r.kind.has_body() && r.start.is_some() && r.fin.is_none()).collect();
+        for hd in &inside {
+            if let Some(g) = hd.waiting_gate {
+                if world.gates[g].open {
+                    // Who polls this operation's future?  A future_sync body is polled by whoever awaits the
+                    // returned future: the harness task, or (nested) the job of another object; everything
+                    // else is polled by its own object's queue.
+                    let mut ctx: Option<usize> = Some(o);
+                    let mut cur: &OpRec = hd;
+                    while cur.kind == Kind::FutureSync {
+                        match cur.nested_in {
+                            Some(p) => {
+                                cur = &ops[p as usize];
+                                ctx = cur.obj;
+                            }
+                            None => {
+                                ctx = None;
+                                break;
+                            }
+                        }
+                    }
+                    if let Some(co) = ctx {
+                        let cstate = facts.queue_peeks.iter().find(|p| p.0 == co).and_then(|p| p.1).map(|p| p.0);
+                        match cstate {
+                            // woken and put back in line, or handed to the pool: it only waits for a thread
+                            Some(0) | Some(1) | Some(5) => {
+                                if pool_available && full {
+                                    v(out, "C06", "woken_but_not_run", &[hd.id], hd.start.unwrap_or(0), describe(hd));
+                                    props_found += 1;
+                                }
+                            }
+                            // still parked although the event has fired
+                            Some(3) | Some(4) => {
+                                v(out, "C06", "wake_lost", &[hd.id], hd.start.unwrap_or(0), describe(hd));
+                                props_found += 1;
+                            }
+                            _ => {}
+                        }
                     }
                 }
-                // blocked in a nested call on another object: that object is to blame
-                let runner_blocked_in_nested = ops.iter().any(|n| n.nested_in == Some(hd.id) && (n.outcome == CallOutcome::InCall || (n.start.is_none() && matches!(n.outcome, CallOutcome::Returned(_)) && n.kind == Kind::FutureSync) || (n.kind.has_body() && matches!(n.outcome, CallOutcome::Returned(_)) && n.fin.is_none())));
-                if runner_blocked_in_nested {
+            }
+        }
+
+        // 3. nothing inside: is accepted work being left alone?
+        if inside.is_empty() {
+            let waiting: Vec<&OpRec> = ops
+                .iter()
+                .filter(|r| r.obj == Some(o) && r.kind.has_body() && r.start.is_none() && matches!(r.outcome, CallOutcome::Returned(_)))
+                .filter(|r| r.kind.background() || r.kind == Kind::FutureSync)
+                .filter(|r| {
+                    // a future_sync whose future is gone imposes nothing any more
+                    if r.kind == Kind::FutureSync {
+                        let h = r.handle.map(|h| &world.hrec[h]);
+                        let nested = r.nested_in.is_some();
+                        !(h.map_or(!nested, |h| h.dropped_at.is_some()))
+                    } else {
+                        true
+                    }
+                })
+                .collect();
+            let any_in_call = ops.iter().any(|r| r.obj == Some(o) && r.outcome == CallOutcome::InCall);
+            let heads: Vec<&&OpRec> = waiting.iter().filter(|a| !waiting.iter().any(|b| b.id != a.id && b.ret.unwrap_or(u64::MAX) < a.inv.unwrap_or(0))).collect();
+            let suspended_by = world.hrec.iter().find(|h| h.kind == Kind::Suspend && h.resolved_at.is_some() && h.op.map_or(false, |s| ops[s as usize].obj == Some(o)));
+            for hd in heads {
+                let claimable = matches!(qstate, Some(0) | Some(1));
+                let abandoned = matches!(qstate, Some(2) | Some(6)) && !any_in_call;
+                if let Some(sh) = suspended_by {
+                    // held by a suspension: only a violation once the resumer has been used or dropped
+                    if sh.resumed_at.is_some() && (matches!(qstate, Some(3)) || ((claimable || abandoned) && pool_available && full)) {
+                        v(out, "C13", "held_after_resume", &[hd.id], hd.inv.unwrap_or(0), describe(hd));
+                        props_found += 1;
+                    }
+                    continue;
+                }
+                if !full || !((claimable && pool_available) || abandoned) {
                     continue;
                 }
                 if hd.kind == Kind::FutureSync {
-                    head_props.push(("C08", "future_sync_stuck", hd.id));
-                } else if hd.kind == Kind::Sync {
-                    head_props.push(("C04", "sync_stuck_inside", hd.id));
+                    v(out, "C08", "slot_never_reached", &[hd.id], hd.inv.unwrap_or(0), describe(hd));
                 } else {
-                    head_props.push(("C06", "suspended_operation_never_resumed", hd.id));
-                }
-            } else {
-                // never started although it is first in line
-                let susp = world.hrec.iter().any(|h| h.kind == Kind::Suspend && h.op.map_or(false, |s| ops[s as usize].obj == Some(o) && ops[s as usize].ret.is_some() && hd.inv.map_or(false, |i| i > ops[s as usize].ret.unwrap())));
-                if susp {
-                    head_props.push(("C13", "held_after_resume", hd.id));
-                    continue;
-                }
-                match hd.kind {
-                    Kind::Sync => head_props.push(("C04", "sync_never_returned", hd.id)),
-                    Kind::Desync | Kind::FutureDesync | Kind::After => {
-                        if full {
-                            head_props.push(("C03", "operation_stranded", hd.id));
-                        }
+                    v(out, "C03", if abandoned { "queue_marked_running_but_abandoned" } else { "operation_stranded" }, &[hd.id], hd.inv.unwrap_or(0), describe(hd));
+                    if hd.kind != Kind::Desync {
+                        v(out, "C07", "operation_did_not_run", &[hd.id], 0, format!("{} {} never ran although the pool had a thread", hd.tag, hd.id));
                     }
-                    Kind::FutureSync => {
-                        if full || live == Live::SingleContext {
-                            head_props.push(("C08", "slot_never_reached", hd.id));
-                        }
+                    if abandoned && slot.saw_busy {
+                        v(out, "C09", "busy_try_sync_left_queue_running", &[hd.id], 0, format!("object {}: queue left marked running after a Busy try_sync; {} {} is stranded", o, hd.tag, hd.id));
                     }
-                    _ => {}
                 }
+                props_found += 1;
             }
-        }
-        let mut distinct: Vec<&'static str> = head_props.iter().map(|p| p.0).collect();
-        distinct.sort();
-        distinct.dedup();
-        if distinct.len() > 1 {
-            verdict.ambiguous_hang = true;
-            continue;
-        }
-        for (prop, kind, id) in head_props {
-            let r = &ops[id as usize];
-            let peek = facts.queue_peeks.iter().find(|p| p.0 == o).and_then(|p| p.1);
-            v(out, prop, kind, &[id], r.inv.unwrap_or(0), format!("{} {} on object {} (queue {:?}, pool {:?}): {}", r.tag, id, o, peek, facts.sched_peek, where_));
-            props_found += 1;
-            if prop == "C03" && slot.saw_busy && peek.map_or(false, |p| p.0 == 2) {
-                v(out, "C09", "busy_try_sync_left_queue_running", &[id], 0, format!("object {}: queue left marked running after a Busy try_sync; {} {} is stranded", o, r.tag, id));
-            }
-            if (prop == "C03") && r.kind != Kind::Desync {
-                v(out, "C07", "operation_did_not_run", &[id], 0, format!("{} {} never ran although the pool had a thread", r.tag, id));
+            if waiting.is_empty() && slot.drop_inv.is_some() && slot.drop_ret.is_none() && !ops.iter().any(|r| r.obj == Some(o) && r.kind.has_body() && matches!(r.outcome, CallOutcome::Returned(_) | CallOutcome::InCall) && r.fin.is_none() && r.kind != Kind::FutureSync) {
+                if !matches!(task_state(slot.dropper), Some(TState::Blocked(Wait::Park))) {
+                    v(out, "C05", "drop_never_returned", &[], slot.drop_inv.unwrap_or(0), format!("dropping object {} never returned although all its operations had finished: {}", o, where_));
+                    props_found += 1;
+                }
             }
         }
     }
@@ -692,8 +748,16 @@ fn blame_hang(rep: &RunReport, live: Live, out: &mut Vec<Violation>, verdict: &m
     for (h, hr) in world.hrec.iter().enumerate() {
         if let (Some(t), Some(opid)) = (hr.awaiting, hr.op) {
             let r = &ops[opid as usize];
-            if r.fin.is_some() && r.fin_kind == FinKind::Normal && hr.resolved_at.is_none() && hr.kind != Kind::Suspend {
+            if r.fin.is_some() && r.fin_kind == FinKind::Normal && hr.resolved_at.is_none() && hr.kind != Kind::Suspend && !hr.sync_wait {
                 let prop = if hr.kind == Kind::FutureSync { "C08" } else { "C07" };
+                if hr.kind == Kind::FutureSync {
+                    // the slot job must be polled once more by whoever runs the queue; if the queue has been
+                    // woken and merely waits for a thread that the program has made unavailable, nothing is owed
+                    let qstate = r.obj.and_then(|o| facts.queue_peeks.iter().find(|p| p.0 == o)).and_then(|p| p.1).map(|p| p.0);
+                    if matches!(qstate, Some(0) | Some(1) | Some(5)) && !pool_available {
+                        continue;
+                    }
+                }
                 v(out, prop, "awaiting_task_never_resolved", &[opid], r.fin.unwrap(), format!("task {} awaits handle {} of finished {} {} and was never given the result: {}", t, h, r.tag, opid, where_));
                 props_found += 1;
             }
